@@ -220,6 +220,11 @@ def split_conjuncts(loops, guards, term, out):
         for a in term[1]:
             split_conjuncts(loops, guards, a, out)
         return
+    if isinstance(term, tuple) and term and term[0] == "phi" and len(term) == 4:
+        # an assertion chosen by a python-level conditional: each alternative under its condition
+        split_conjuncts(loops, tuple(guards) + (term[1],), term[2], out)
+        split_conjuncts(loops, tuple(guards) + (app("not", term[1]),), term[3], out)
+        return
     out.append((tuple(loops), tuple(guards), term))
 
 
@@ -252,9 +257,49 @@ def conj_groups(items: Iterable[Tuple[tuple, tuple, tuple]]) -> Dict[tuple, List
         split_conjuncts(loops, guards, term, parts)
         for l, g, body in parts:
             nl, ng, nb = _rename_loops(l, g, body)
+            ng = tuple(_range_guard(x, nl) for x in ng)
+            # under a guard `elem == k` the body speaks about k
+            pin = {x[2]: x[3] for x in ng if is_app(x, "==") and len(x) == 4 and is_const(x[3]) and isinstance(x[3][1], int)
+                   and not isinstance(x[3][1], bool) and isinstance(x[2], tuple) and x[2] and x[2][0] == "elem"}
+            if pin:
+                nb = substitute(nb, pin)
             sig = (nl, tuple(sorted((norm(x) for x in ng), key=show)))
             groups.setdefault(sig, []).append(norm(nb))
     return groups
+
+
+def _range_guard(g, loops):
+    """guards that test the element of a `range(0, n)` loop against its first value have one spelling:
+    e == 0 / not(e == 0)  (for e > 0, e >= 1, e != 0, e <= 0, e < 1 ...)"""
+    from .decide import canon_atom
+    neg = False
+    t = g
+    if is_app(t, "not") and len(t) == 3:
+        neg, t = True, t[2]
+    if not (is_app(t) and t[1] in ("<", "<=", ">", ">=", "==", "!=") and len(t) == 4):
+        return g
+    ca = canon_atom(t)
+    if ca is None or len(ca[1].coef) != 1:
+        return g
+    (leaf, c), = ca[1].coef.items()
+    if not (isinstance(leaf, tuple) and leaf and leaf[0] == "elem" and leaf[1] in loops and isinstance(leaf[1][3], tuple)
+            and leaf[1][3][:2] == ("range", K(0))):
+        return g
+    const = ca[1].const
+    first = app("==", leaf, K(0))
+    res = None
+    if ca[0] == "le":
+        if c == 1 and const == 0:        # e <= 0
+            res = first
+        elif c == -1 and const == 1:     # e >= 1
+            res = app("not", first)
+    elif ca[0] == "eq" and const == 0:
+        res = first
+    elif ca[0] == "ne" and const == 0:
+        res = app("not", first)
+    if res is None:
+        return g
+    return app("not", res) if neg else res
 
 
 def emission_items(emissions: Sequence[Emission]):
